@@ -23,6 +23,7 @@ class Check:
         self.replays = []           # summaries of harness replay runs
         self.traces = []            # summaries of trace validations
         self.mismatches = []        # (aspect, detail) attributed to this property
+        self.ext = []               # deviations from the parts of the specification that go beyond the listed properties (aspects X..)
         self.samples = []
         self.notes = []
         self.assumptions = []
@@ -146,6 +147,8 @@ class Check:
                 rec = json.loads(line)
                 if any(rec['aspect'].startswith(a) for a in aspects):
                     self.mismatches.append((rec['aspect'], rec['detail']))
+                elif rec['aspect'].startswith('X'):
+                    self.ext.append((rec['aspect'], rec['detail']))
 
     def record(self, sub, out_name, args=(), seed_offset=0):
         """Run a harness recorder (impl -> spec direction); returns (trace path, summary)."""
@@ -756,6 +759,13 @@ def conclude(ctx):
         'notes': ctx.notes,
     }
     coverage.update({k: v for k, v in ctx.extra.items() if k not in ('aspects', 'rule')})
+    if ctx.ext:
+        # behaviour specified beyond the listed properties (typed token entry points, ...): reported, never a property violation
+        coverage['extension_deviations'] = [{'aspect': a, 'detail': d} for a, d in ctx.ext[:20]]
+        for a in sorted({a for a, _ in ctx.ext}):
+            n = sum(1 for x, _ in ctx.ext if x == a)
+            d = next(d for x, d in ctx.ext if x == a)
+            print(f'EXTENSION-DEVIATION: [{a}] {n} deviation(s) from the specification beyond the listed properties; first: {json.dumps(d)[:300]}')
     rc = 0
     replay_path = None
     if unlisted:
